@@ -257,6 +257,20 @@ fn simplify_body(b: &BodySpec) -> Vec<BodySpec> {
 /// Candidate simpler versions of one action.
 pub fn simplify(a: &Action) -> Vec<Action> {
     let mut out = vec![];
+    // keep the population (and so every later index) stable while making the node trivial
+    match a {
+        Action::NewMap { .. }
+        | Action::NewMapP { .. }
+        | Action::NewMapN { .. }
+        | Action::NewFold { .. }
+        | Action::NewMapRef { .. }
+        | Action::NewMapWithOld { .. }
+        | Action::NewDependOn { .. }
+        | Action::NewBind { .. }
+        | Action::MemoCall { .. } => out.push(Action::NewConst { v: 0 }),
+        Action::NewVar { init } if *init != 0 => out.push(Action::NewVar { init: 0 }),
+        _ => {}
+    }
     match a {
         Action::NewMap { src, f, fx } => {
             for v in simplify_fx(fx) {
